@@ -3,9 +3,11 @@ import json, os, subprocess, sys, time, hashlib, shutil
 
 VERIF = os.path.dirname(os.path.dirname(os.path.abspath(__file__)))
 REPO = os.environ.get("VERIF_REPO", "/repo")
-WORK = os.path.join(VERIF, ".work")
-EVID = os.path.join(VERIF, "evidence")
-REPLAYS = os.path.join(VERIF, "replays")
+# the three output locations can be redirected (lib/seedregress.py runs the checks against a scratch copy of the repository
+# without touching /verif/evidence); the registered commands never set these
+WORK = os.environ.get("VERIF_WORK") or os.path.join(VERIF, ".work")
+EVID = os.environ.get("VERIF_EVID") or os.path.join(VERIF, "evidence")
+REPLAYS = os.environ.get("VERIF_REPLAYS") or os.path.join(VERIF, "replays")
 GUARD = "pest_parser_pest_verif"
 NCPU = int(os.environ.get("VERIF_JOBS", "16"))
 
